@@ -688,6 +688,8 @@ func checkC02(r *Run) {
 	exitValueWholeRule(r, "R8")
 	r.Rule("R9", "what the lexer produced is what is parsed: the parser never stores into a field of its current or next token (literal text would no longer be copied byte for byte)", 1)
 	tokenImmutableRule(r, "R9")
+	r.Rule("R10", "the rendered text reaches the caller as the evaluator produced it: every function of the root package that hands it on returns the very string a call further down returned (or a constant on failure), never something computed from it", 1)
+	outputPipelineRule(r, "R10")
 }
 
 func topLevelWriteRule(r *Run, rule string) {
